@@ -75,6 +75,8 @@ pub enum Act {
     HandOff(u8),
     ConsumeReceived,
     ConsumeTwice,
+    /// 2-4 threads ask for the same unconsumed id at the same moment
+    ConsumeRacing(u8),
     FreeNull,
     /// pathrs_errorinfo() of values that are not error ids
     InfoOfNonId(i32),
@@ -92,6 +94,7 @@ fn act() -> impl Strategy<Value = Act> {
         3 => any::<u8>().prop_map(Act::HandOff),
         3 => Just(Act::ConsumeReceived),
         2 => Just(Act::ConsumeTwice),
+        1 => (0u8..3).prop_map(Act::ConsumeRacing),
         1 => Just(Act::FreeNull),
         1 => prop_oneof![Just(0), Just(-1), Just(-2), Just(-4095), Just(5), Just(i32::MAX), Just(-22)].prop_map(Act::InfoOfNonId),
     ]
@@ -108,6 +111,8 @@ pub struct Report {
     pub consumed: u64,
     pub handoffs: u64,
     pub double_consumes: u64,
+    #[serde(default)]
+    pub racing_consumes: u64,
     pub kinds: Vec<(String, u64)>,
     pub sample_descriptions: Vec<(String, u64, String)>,
     pub leftover: u64,
@@ -203,7 +208,7 @@ pub fn child(case: &Case) -> Report {
         txs.push(tx);
         rxs.push(Some(rx));
     }
-    let counters = Arc::new(Mutex::new((0u64, 0u64, 0u64, 0u64, HashMap::<String, u64>::new())));
+    let counters = Arc::new(Mutex::new((0u64, 0u64, 0u64, 0u64, HashMap::<String, u64>::new(), 0u64)));
     let mut handles = vec![];
     for (ti, acts) in case.threads.iter().cloned().enumerate() {
         let model = model.clone();
@@ -280,6 +285,49 @@ pub fn child(case: &Case) -> Report {
                             c.3 += 1;
                         }
                     }
+                    Act::ConsumeRacing(k) => {
+                        if !own.is_empty() {
+                            let id = own.remove(0);
+                            // nobody may obtain a new id meanwhile (it could be this very number)
+                            let _g = quiesce.write().unwrap();
+                            let expected = model.lock().unwrap().live.remove(&id);
+                            let racers = 2 + k as usize;
+                            let go = std::sync::atomic::AtomicBool::new(false);
+                            let ready = std::sync::atomic::AtomicUsize::new(0);
+                            let got: Vec<Option<(u64, String)>> = std::thread::scope(|sc| {
+                                let hs: Vec<_> = (0..racers)
+                                    .map(|_| {
+                                        sc.spawn(|| {
+                                            ready.fetch_add(1, std::sync::atomic::Ordering::SeqCst);
+                                            while !go.load(std::sync::atomic::Ordering::Acquire) {
+                                                std::hint::spin_loop();
+                                            }
+                                            take_error(id)
+                                        })
+                                    })
+                                    .collect();
+                                while ready.load(std::sync::atomic::Ordering::SeqCst) < racers {
+                                    std::thread::yield_now();
+                                }
+                                go.store(true, std::sync::atomic::Ordering::Release);
+                                hs.into_iter().map(|h| h.join().unwrap_or(None)).collect()
+                            });
+                            let winners: Vec<&(u64, String)> = got.iter().flatten().collect();
+                            let mut m = model.lock().unwrap();
+                            if winners.len() != 1 {
+                                m.problems.push(format!("thread {}: {} concurrent pathrs_errorinfo({}) calls: {} of them obtained the error (exactly one must)", ti, racers, id, winners.len()));
+                            }
+                            if let (Some(exp), Some(w)) = (expected, winners.first()) {
+                                if !exp.contains(&(w.0 as i32)) {
+                                    m.problems.push(format!("thread {}: error {} carries saved_errno {} but the failing call implies {:?}", ti, id, w.0, exp.iter().map(|x| errno_name(*x)).collect::<Vec<_>>()));
+                                }
+                            }
+                            drop(m);
+                            let mut c = counters.lock().unwrap();
+                            c.1 += 1;
+                            c.5 += 1;
+                        }
+                    }
                     Act::FreeNull => unsafe { pathrs_errorinfo_free(std::ptr::null_mut()) },
                     Act::InfoOfNonId(v) => {
                         let _g = quiesce.read().unwrap();
@@ -325,7 +373,7 @@ pub fn child(case: &Case) -> Report {
     if !m.live.is_empty() {
         problems.push(format!("{} ids are unaccounted for in the model", m.live.len()));
     }
-    Report { problems, failures: c.0, consumed: c.1 + 0, handoffs: c.2, double_consumes: c.3, kinds: c.4.iter().map(|(k, v)| (k.clone(), *v)).collect(), sample_descriptions: m.samples.clone(), leftover }
+    Report { problems, failures: c.0, consumed: c.1 + 0, handoffs: c.2, double_consumes: c.3, racing_consumes: c.5, kinds: c.4.iter().map(|(k, v)| (k.clone(), *v)).collect(), sample_descriptions: m.samples.clone(), leftover }
 }
 
 /// Hold `n` unconsumed ids at once: all distinct, all below -4095, each retrievable once.
@@ -376,12 +424,13 @@ pub fn judge(case: &Case, rep: &Report, stats: &mut Stats) -> Result<(), Fail> {
     stats.count("ids_consumed", rep.consumed);
     stats.count("cross_thread_handoffs", rep.handoffs);
     stats.count("double_consumes", rep.double_consumes);
+    stats.count("racing_consumes", rep.racing_consumes);
     stats.count("consumed_at_the_end_from_another_thread", rep.leftover);
     stats.class(&format!("threads:{}", case.threads.len()));
     for (k, v) in &rep.kinds {
         *stats.classes.entry(format!("kind:{}", k)).or_insert(0) += v;
     }
-    if rep.handoffs > 0 || rep.double_consumes > 0 {
+    if rep.handoffs > 0 || rep.double_consumes > 0 || rep.racing_consumes > 0 {
         stats.nontrivial_key(&format!("{:?}", case));
         stats.sample(|| json!({"threads": case.threads.len(), "history_thread0": case.threads[0].iter().take(12).map(|a| format!("{:?}", a)).collect::<Vec<_>>(), "failing_calls": rep.failures, "handoffs": rep.handoffs, "double_consumes": rep.double_consumes, "descriptions": rep.sample_descriptions.iter().take(4).collect::<Vec<_>>()}));
     }
@@ -461,7 +510,7 @@ fn replay(_ctx: &Ctx, check_name: &str, case: &Value) -> Result<(), Fail> {
 pub const PROP: Prop = Prop {
     id: "C16",
     level: "exploration",
-    rule: "T in {1,2,4,8,16} free-running threads (released together from a barrier) x per-thread history of 0-39 actions {failing C call of 14 kinds (ENOENT, ENOTDIR, ELOOP, EINVAL through negative fd / NULL path / unknown procfs base / setuid mode / trailing slash, ENOSYS for S_IFSOCK, EEXIST, EISDIR, ENOTEMPTY, EXDEV from leaving a procfs base, EBADF), consume own oldest id, hand an id to another thread, consume a received id, consume twice, pathrs_errorinfo_free(NULL), pathrs_errorinfo of non-ids (0, -1, -4095, 5 …)}. A model of the live ids is kept under the harness's own lock, updated so that it is always a subset of what the library must still hold (an id leaves the model before it is read; double reads exclude concurrent failures). Oracle, valid under every schedule: each id < -4095; never equal to an id the model still holds; pathrs_errorinfo from whichever thread returns non-NULL exactly once with the errno the failing call implies and a non-empty description, NULL the second time and for non-ids; ids left at the end are read from yet another thread. Plus 60 000 (thorough: 300 000) ids held unconsumed at once: pairwise distinct, all retrievable once. non-trivial = histories with a cross-thread hand-off or a double read",
+    rule: "T in {1,2,4,8,16} free-running threads (released together from a barrier) x per-thread history of 0-39 actions {failing C call of 14 kinds (ENOENT, ENOTDIR, ELOOP, EINVAL through negative fd / NULL path / unknown procfs base / setuid mode / trailing slash, ENOSYS for S_IFSOCK, EEXIST, EISDIR, ENOTEMPTY, EXDEV from leaving a procfs base, EBADF), consume own oldest id, hand an id to another thread, consume a received id, consume twice, 2-4 threads released together asking for the same unconsumed id (exactly one may obtain it), pathrs_errorinfo_free(NULL), pathrs_errorinfo of non-ids (0, -1, -4095, 5 …)}. A model of the live ids is kept under the harness's own lock, updated so that it is always a subset of what the library must still hold (an id leaves the model before it is read; double reads exclude concurrent failures). Oracle, valid under every schedule: each id < -4095; never equal to an id the model still holds; pathrs_errorinfo from whichever thread returns non-NULL exactly once with the errno the failing call implies and a non-empty description, NULL the second time and for non-ids; ids left at the end are read from yet another thread. Plus 60 000 (thorough: 300 000) ids held unconsumed at once: pairwise distinct, all retrievable once. non-trivial = histories with a cross-thread hand-off or a double read",
     assumptions: &["thread interleavings are whatever the scheduler produces (the table's mutex is a userspace lock the gate cannot own); the oracle does not depend on the schedule", "an id range that is wrong only on a 2^-19 slice of draws is beyond sampling"],
     lanes: |_| 16,
     run_lane,
